@@ -29,6 +29,9 @@ PROP = {
         "GunYu.Props.C03.intset_roundtrip",
         "GunYu.Props.C03.expand_roundtrip",
         "GunYu.Props.C03.raw_is_encode",
+        "GunYu.Props.C03.chunked_roundtrip",
+        "GunYu.Props.C03.hash_unsplit_raw_is_encode",
+        "GunYu.Props.C03.fanOut_same_key",
         "GunYu.Props.C03.ttl_absolute",
         "GunYu.Props.C03.replay_db",
     ],
@@ -37,15 +40,67 @@ PROP = {
         {"name": "C03dec", "pkg": "./pkg/rdb/", "test": "TestVerifC03Dec"},
         {"name": "C03replay", "pkg": "./syncer/", "test": "TestVerifC03Replay"},
     ],
-    "rule": "",
-    "trusted": [],
-    "assumptions": [],
-    "partial": [],
+    "rule": "datasets are DESCRIPTIONS (logical value + every encoding choice: length forms, int/LZF strings, container encoding, "
+            "integer widths, prevlen forms, zllen known/unknown, raw or LZF-compressed blobs) generated from the seed by "
+            "pkg/vfc03; the Lean encoder (specification) turns each description into snapshot bytes (drv_C03 `gen`), the Go "
+            "harness feeds them to the real code. C03dec: real ParseRdb/Next/ReadBuffer/ExecCmd/CreateValueDump vs the Lean "
+            "decoder model per entry (db,key,type,expiry,idle,freq,first/split,payload bytes,expanded commands) on corpus + "
+            "22 Redis-produced fixture blobs of loader_test.go x 3 configs + 250 (quick) / 6000 (thorough) generated files "
+            "(RDB versions 1..13, thresholds 1/5/20/100/16MiB) + truncated/byte-altered variants; digest.New and "
+            "CreateValueDump vs an independent bitwise CRC64. C03replay: real RedisOutput.sendRdb (ParseRdb -> fan-out -> "
+            "rdbReplay -> RdbReplay.Replay) in a synctest bubble against the in-process target double, 220 / 5000 files x "
+            "random config (restore on/off, MaxProtoBulkLen 30/120/512MiB, parallel 1-4, TargetDb, TargetDbMap, target "
+            "version 4-8, threshold, pre-existing keys of other type/with TTL); per-worker request logs vs the Lean replay "
+            "model; monitor = target double's interpreter reconstructs the keyspace and compares with the dataset (type, "
+            "content incl. order/scores/fields/stream entries+ids+groups+PEL, TTL = expireAt-now or expired-at-once, DB "
+            "mapping, RESTORE payload = type+serialization+0x0006+CRC64 by the independent CRC). "
+            "distinct_nontrivial = (kind, value-shape) classes seen",
+    "trusted": [
+        "RDB on-disk encodings as transcribed in Model/Rdb/{Str,Ziplist,Listpack,Stream,Enc}.lean (encoders = specification: "
+        "length forms, int/LZF strings, ziplist, listpack, intset, zipmap, quicklist v1/v2, stream listpacks v1-v4, file frame); "
+        "cross-checked against the Redis-produced fixture blobs the repo carries (decoder model = real decoder on all 22)",
+        "CRC-64/Jones bitwise definition (check value 0xe9c6d914c4b8d9ca proved) and Redis verifyDumpPayload as transcribed",
+        "Redis command semantics used as replay oracle (Model/RedisSem.lean) and the Go target double pkg/vfc03/target.go "
+        "(SET/RPUSH/SADD/ZADD/HSET/XADD/XSETID/XGROUP CREATE/XCLAIM/DEL/PEXPIRE/RESTORE incl. BUSYKEY, integer-argument parsing)",
+        "strconv float formatting/parsing (float64 scores are carried by bit pattern; old-format zset scores modelled for "
+        "integers < 2^53, inf, nan only), Go channel FIFO order per worker, testing/synctest virtual clock",
+    ],
+    "assumptions": [
+        "decoder/expansion/replay models are hand-written and tied by correspondence (not regenerated); CRC64 table and RDB "
+        "constants are regenerated from the Go source each run",
+        "models are of the REPAIRED behaviour for D8, D9, D10, D11 and N1 (fix: commits in /repo, witnesses in corpus/C03)",
+        "a worker that hits an error cancels the sync: the model does not describe the requests other workers issue after that",
+        "output filters other than the DB black list are not exercised here (C10); keys starting with the checkpoint prefixes "
+        "are not generated",
+    ],
+    "partial": [
+        "stream_roundtrip_partial: stream values (listpacks v1-v4, SAMEFIELDS, deleted entries, groups/PEL, IDMP) have encoder "
+        "spec + decoder model + correspondence + monitor, but no Lean round-trip theorem yet (expand_roundtrip covers "
+        "strings, lists, sets, sorted sets, hashes in all their encodings)",
+        "full_sync_partial: the per-value theorems (string/container round trips, expand_roundtrip, raw_is_encode, "
+        "chunked_roundtrip, ttl_absolute, replay_db, dump_payload) are not yet composed into one theorem over "
+        "parseRdb(rdbFile f) + fanOut for a whole dataset; the composition is covered by correspondence and the monitor",
+        "zset_v1_scores_partial: RDB_TYPE_ZSET (type 3, Redis < 4.0) ASCII scores are modelled for integers below 2^53, inf, nan",
+        "zipmap_partial: type 9 (Redis < 2.6) modelled for < 254 items of < 253 bytes",
+        "listpack_65535_partial: a listpack whose element count field is 65535 (unknown) is read as a count by the code; "
+        "values of >= 65535 listpack elements are outside the theorem's hypotheses (lpWf) and not generated",
+        "module values (type 6/7) are opaque: RESTORE path only, expansion refused by the code; module aux skipped/refused per policy",
+    ],
     "driver": "drv_C03",
 }
 
 MANIFEST = {
-    "text": "",
-    "note": "",
-    "technique": "Lean 4 proof + differential correspondence",
+    "text": "Lean theorems: table CRC64 (regenerated table) = CRC-64/Jones; DUMP payload = type+serialization+version+CRC64 and "
+            "passes verifyDumpPayload; ReadString inverts every string encoding incl. LZF; ziplist/listpack/intset/zipmap blobs "
+            "decode to their contents for every entry encoding, width and sign; for every string/list/set/zset/hash encoding "
+            "the expansion replayed into an empty key rebuilds the source value (expand_roundtrip); teed bytes = "
+            "serialization (raw_is_encode); hash tables split at ANY threshold rebuild the same hash, every chunk keeps "
+            "key/DB/expiry (chunked_roundtrip); TTL = absolute expiry; DB mapping. Decoder, expansion and replay models are "
+            "tied to pkg/rdb, pkg/redis/types, pkg/rdbrestore and syncer.sendRdb by differential correspondence on snapshots "
+            "the Lean encoder generates + the repo's Redis-produced fixtures, with a keyspace-reconstructing monitor. "
+            "Five defects found by the check and fixed (D8, D9, D10, D11, N1).",
+    "note": "trusted: Lean kernel, RDB format + Redis command semantics as transcribed, target double, extractor, harness; "
+            "streams and the whole-file composition are covered by correspondence + monitor, not yet by a theorem (partial)",
+    "technique": "Lean 4 proof (induction over encodings, GF(2)-linearity + 256-case kernel decide for CRC64) + generated-input "
+                 "differential correspondence + independent Go oracle",
 }
